@@ -529,10 +529,11 @@ SQB = dict(harness='harness/h_seq_ber.c', units=[SK + 'constr_SEQUENCE.c', SK + 
            link=[SK + 'ber_decoder.c', SK + 'ber_tlv_tag.c', SK + 'ber_tlv_length.c'], stubs=['stubs/bsearch.c'],
            fp_restrict=[(r'ber_decoder\)$', ['sv_ber']), (r'free_struct\)$', ['sv_free']), (r'compar$', ['_t2e_cmp'])], trusted=[STUBT, 'stubs/bsearch.c'])
 for _v, _n, _d in ((0, 11, 'SEQUENCE { a [0] OPTIONAL, b CHOICE OPTIONAL (untagged: tag2el/bsearch path), c [2] }'), (1, 11, 'SEQUENCE { a [0] OPTIONAL, c [2], ..., b CHOICE OPTIONAL }, unknown additions primitive')):
-    O(id='SEQUENCE_decode_ber.v%d' % _v, props=['C04', 'C14'], kind='bounded', tier='experimental', entry='h_SEQUENCE_decode_ber',
-      functions=['SEQUENCE_decode_ber', 'ber_check_tags', 'ber_fetch_tag', 'ber_fetch_length', 'ber_skip_length', '_t2e_cmp', 'SEQUENCE_free'],
-      defines=['VF_V=%d' % _v, 'VF_N=%d' % _n], unwind=9, cbmc=['--unwindset', 'ber_skip_length:2,ber_fetch_tag.0:%d,ber_fetch_length.0:%d,h_SEQUENCE_decode_ber.0:%d,h_SEQUENCE_decode_ber.1:%d,h_SEQUENCE_decode_ber.2:%d' % ((_n + 3,) * 5), '--malloc-may-fail', '--malloc-fail-null', '--memory-leak-check'],
-      bound=_d + '; every input of at most %d octets in an exact-size heap buffer; every allocation may fail' % _n, min_props=80, timeout=1800, **SQB)
+    for _sz in range(0, _n + 1):
+        O(id='SEQUENCE_decode_ber.v%d.s%d' % (_v, _sz), props=['C04', 'C14'], kind='bounded', tier='experimental', entry='h_SEQUENCE_decode_ber',
+          functions=['SEQUENCE_decode_ber', 'ber_check_tags', 'ber_fetch_tag', 'ber_fetch_length', 'ber_skip_length', '_t2e_cmp', 'SEQUENCE_free'],
+          defines=['VF_V=%d' % _v, 'VF_N=%d' % _n, 'VF_SIZE=%d' % _sz], unwind=_n + 3, cbmc=['--unwindset', 'ber_skip_length:2', '--malloc-may-fail', '--malloc-fail-null', '--memory-leak-check'],
+          bound=_d + '; every input of exactly %d octets in an exact-size heap buffer; every allocation may fail' % _sz, min_props=80, timeout=1800, **SQB)
     O(id='SEQUENCE_decode_ber.chunk2.v%d' % _v, props=['C05', 'C03'], kind='bounded', tier='experimental', entry='h_SEQUENCE_decode_ber_chunked',
       functions=['SEQUENCE_decode_ber', 'ber_check_tags', 'ber_fetch_tag', 'ber_fetch_length', 'ber_skip_length', '_t2e_cmp'],
       defines=['VF_V=%d' % _v, 'VF_N=%d' % _n], unwind=9, cbmc=['--unwindset', 'ber_skip_length:2,ber_fetch_tag.0:%d,ber_fetch_length.0:%d,h_SEQUENCE_decode_ber_chunked.0:%d,h_SEQUENCE_decode_ber_chunked.1:%d' % ((_n + 3,) * 4), '--no-malloc-may-fail'],
